@@ -501,8 +501,11 @@ static int notify_fetching_peer(const struct element *e, const struct fetch *f,
 	const struct peer *p = f->peer;
 	if (unlikely(p->send_message(p, rendered_message,
 	                             strlen(rendered_message)) != 0)) {
-		cjet_free(rendered_message);
-		goto error;
+		/*
+		 * A fetching peer that can't be reached must not make the
+		 * operation fail for everybody else.
+		 */
+		log_peer_err(p, "Could not send %s notification for %s!\n", event_name, e->path);
 	}
 
 	cJSON_Delete(root);
@@ -601,15 +604,18 @@ static int get_elements_in_peer(const struct peer *p, const cJSON *request, cons
 
 int notify_fetchers(const struct element *e, const char *event_name)
 {
+	int ret = 0;
 	for (unsigned int i = 0; i < e->fetch_table_size; i++) {
 		const struct fetch *f = e->fetcher_table[i];
 		if ((f != NULL) &&
 		    (unlikely(notify_fetching_peer(e, f, event_name) != 0))) {
-			return -1;
+			ret = -1;
 		}
 	}
-	return 0;
+	return ret;
 }
+
+static void remove_fetch_from_states(const struct fetch *f);
 
 cJSON *add_fetch_to_states(const struct peer *request_peer, const cJSON *request, struct fetch *f)
 {
@@ -620,7 +626,10 @@ cJSON *add_fetch_to_states(const struct peer *request_peer, const cJSON *request
 		const struct peer *p = list_entry(item, struct peer, next_peer);
 		int ret = add_fetch_to_states_in_peer(p, f);
 		if (unlikely(ret != 0)) {
-			return create_error_response_from_request(p, request, INTERNAL_ERROR, "reason", "could not add fetch to state");
+			remove_fetch_from_states(f);
+			list_del(&f->next_fetch);
+			free_fetch(f);
+			return create_error_response_from_request(request_peer, request, INTERNAL_ERROR, "reason", "could not add fetch to state");
 		}
 	}
 
